@@ -283,7 +283,13 @@ type brokerRun struct {
 	tmo    time.Duration
 }
 
+// the provider registries of the library are plain maps: registrations and the server's lazy
+// configuration (which reads them) are serialised here when several brokers live in one process
+var registryMu sync.Mutex
+
 func newBrokerRun(auth string, maxqos int) *brokerRun {
+	registryMu.Lock()
+	defer registryMu.Unlock()
 	service.VerifEventFn = brokerEventFn
 	name := fmt.Sprintf("verif%d", atomic.AddUint64(&brokerSeq, 1))
 	topics.Register(name, topics.NewMemProvider())
@@ -294,6 +300,8 @@ func newBrokerRun(auth string, maxqos int) *brokerRun {
 	}
 	r := &brokerRun{name: name, conns: map[string]*bConn{}, locals: map[string]*localSub{}, auth: auth, tmo: 3 * time.Second}
 	r.svr = &service.Server{BufferSize: 16384, TopicsProvider: name, SessionsProvider: name, Authenticator: auth, ConnectTimeout: 2}
+	var none service.OnPublishFunc
+	r.svr.Unsubscribe("verif/none", &none) // forces the configuration (provider look-up) now
 	return r
 }
 
@@ -310,8 +318,10 @@ func (r *brokerRun) cleanup() {
 			}
 		}
 	}
+	registryMu.Lock()
 	topics.Unregister(r.name)
 	sessions.Unregister(r.name)
+	registryMu.Unlock()
 }
 
 func connectBytes(a bAct) []byte {
